@@ -310,6 +310,46 @@ def build_cpp(sources, exe_name, flags=(), include_repo=True, extra_key="", comp
     return exe
 
 
+
+def bad_done_stage(ctx, source, exe_name, what, mode, factor=1):
+    """Implementation-side stage shared by several checks: harness/<source> compares the library with itself across input
+    classes (or with a fixed expectation), prints one "BAD <subject> on ..." line per disagreement and a final
+    "DONE <cases> <bad>".  One violation per distinct subject; a crash of the harness is a violation too."""
+    exe = build_cpp([os.path.join(VERIF, "harness", source)], exe_name, flags=["-O1"], compiler="g++")
+    rc, out = sh([exe], timeout=900)
+    done = [l for l in out.split("\n") if l.startswith("DONE ")]
+    if rc != 0 or not done:
+        ctx.violation("%s stage crashed" % mode, "harness/%s ended abnormally: %s" % (source, out[-400:]), {"mode": mode})
+        return
+    seen = set()
+    for l in [l for l in out.split("\n") if l.startswith("BAD ")]:
+        subject = l[4:].split(" on ")[0]
+        if subject in seen:
+            continue
+        seen.add(subject)
+        ctx.violation("%s: %s" % (what, subject), l[4:500], {"mode": mode, "line": l[:1000]})
+    n = int(done[0].split()[1])
+    ctx.cover(evaluations=n * factor, distinct=n, validated=0, **{mode + "_stage_cases": n})
+
+
+def replay_bad_done(pid, source, exe_name, what, mode):
+    """replay of a bad_done_stage violation: the stage is deterministic, so it is simply run again"""
+    class _C:
+        def __init__(self):
+            self.v = []
+
+        def violation(self, sig, w, r):
+            self.v.append(w)
+
+        def cover(self, **k):
+            pass
+    c = _C()
+    bad_done_stage(c, source, exe_name, what, mode)
+    for w in c.v[:6]:
+        print("REPLAY:", w[:300])
+    print(("VIOLATION property=%s replay=(replayed)" % pid) if c.v else "no violation on the current tree")
+    return 1 if c.v else 0
+
 class BuildError(RuntimeError):
     pass
 
